@@ -22,12 +22,18 @@ var c20AlwaysPublic = map[string]bool{"id": true, "grp": true, "owner": true}
 func referenced(e qx.Expr, out, inner map[string]bool) {
 	sub := func(sq *qx.SubQ) {
 		out[sq.Set] = true
+		// a sub-query over a set that links the store to itself ranges over the store's own entities: its names are
+		// names of the validated store like the outer ones
+		in := inner
+		if sq.Set == "peers" {
+			in = out
+		}
 		if sq.Q != nil {
 			if sq.Q.Pred != nil {
-				referenced(sq.Q.Pred, inner, inner)
+				referenced(sq.Q.Pred, in, inner)
 			}
 			for _, f := range sq.Q.Sort {
-				inner[f.Sym] = true
+				in[f.Sym] = true
 			}
 		}
 	}
